@@ -160,6 +160,7 @@ var htmlAlphabet = []string{
 type inputSet struct {
 	seen  map[string]bool
 	list  []string
+	src   []string       // stream name of list[i]
 	hist  map[string]int // stream name -> count
 	limit int
 }
@@ -175,6 +176,7 @@ func (s *inputSet) add(stream, in string) {
 	}
 	s.seen[in] = true
 	s.list = append(s.list, in)
+	s.src = append(s.src, stream)
 	s.hist[stream]++
 }
 
@@ -523,6 +525,33 @@ func nearMisses(names []string) []string {
 	return out
 }
 
+// every byte value (and the byte after one ordinary byte) in every syntactic position where
+// a lexer consults a byte class: decides each entry of each class table and each comparison
+// against a byte constant
+var sqlByteForms = []string{"x'%s'", "X'1%s'", "b'%s'", "B'1%s'", "0x%s", "0X1%s", "0b%s", "0b1%s", "1e%s", "1e1%s", "1.%s", "1%s", ".%s", ".1%s",
+	"@%s", "@a%s", "@@%s", "@`a%s`", "$%s", "$1%s", "$a%s$", "$a$x$%s$", "%s", "a%s", "a%sb", "a.%s", "'a%s'", "'a\\%s'", "'a'%s'", "\"a%s\"", "`a%s`", "q'%sx%s'", "nq'%sx%s'",
+	"n'%s'", "e'%s'", "u&'%s'", "/*%s*/", "/*!%s*/", "/*a*%s", "--%s", "-- %s\n1", "#%s\n1", "1 %s 1", "1 -%s", "1 <%s", "1 !%s", "1 |%s", "1 &%s", "1 :%s", "[a%s]", "{a%s}", "\\%s", "1 union%sselect 1", "1'%sor'1"}
+
+var htmlByteForms = []string{"<%s>", "<a%s>", "<a%sb>", "<a %s=x>", "<a b%s=x>", "<a b%sc=x>", "<a b=%s>", "<a b=x%s>", "<a b='x%s'>", "<a b='x'%s>", "<a b=\"x\"%sc>", "<a b %s>", "<a b =%s>",
+	"<!%s>", "<!-%s", "<!--%s-->", "<!--x-%s>", "<!--x--%s>", "<!--x--!%s", "<![CDATA[%s]]>", "<![CDATA[x]%s>", "<![CDATA[x]]%s", "</%s>", "</a%s>", "<?%s>", "<?x%s>", "<%%%s%%>", "<%%x%%%s",
+	"&#%s;", "&#x%s;", "&#1%s", "&#x1%s", "&#x1%s;", "&%s", "<a href=%sjavascript:x>", "<a href=java%sscript:x>", "<a href=javascript%sx>", "<a href='%sjavascript:x'>", "<a/%s>", "<a/%sonclick=x>",
+	"<a on%s=x>", "<a o%snclick=x>", "<s%script>", "<script%s", "x%s", "%s<script>", "'%sonclick=x", "' %s onclick=x"}
+
+func everyByteIn(forms []string, emit func(string)) {
+	for _, f := range forms {
+		n := strings.Count(f, "%s")
+		for c := 0; c < 256; c++ {
+			b := string([]byte{byte(c)})
+			if n == 1 {
+				emit(strings.Replace(f, "%s", b, 1))
+			} else {
+				emit(strings.Replace(f, "%s", b, -1))
+				emit(strings.Replace(strings.Replace(f, "%s", b, 1), "%s", "(", 1))
+			}
+		}
+	}
+}
+
 func sqlAll(c *corpus, r *rng, tier string, scale int) *inputSet {
 	z := tierSizes(tier, scale)
 	s := newInputSet()
@@ -550,6 +579,7 @@ func sqlAll(c *corpus, r *rng, tier string, scale int) *inputSet {
 	whitelistShapes(func(x string) { s.add("whitelist-shapes", x) })
 	foldShapes(func(x string) { s.add("fold-shapes", x) })
 	tablePhrases(func(x string) { s.add("table-phrases", x) })
+	everyByteIn(sqlByteForms, func(x string) { s.add("every-byte-in-position", x) })
 	for _, w := range nearMisses(c.logic) {
 		for _, f := range []string{"%s", "%s(", "%s (1)", "@%s(1)", "@@%s (1)", "'%s'(1)", "`%s`(1)", "1 %s 1", "1 %s (1)", "x' %s 'y", "; %s 1=1", "1 %s outfile 'x'", "select %s(1)", "1 not %s (1)", "1 %s", "%s 1"} {
 			s.add("logic-words", fmt.Sprintf(f, w))
@@ -659,6 +689,7 @@ func htmlAll(c *corpus, r *rng, tier string, scale int) *inputSet {
 	}
 	exhaustive(htmlAlphabet, depth, func(x string) { s.add("exhaustive", x) })
 	wrappedVectors(func(x string) { s.add("wrapped-vectors-with-tails", x) })
+	everyByteIn(htmlByteForms, func(x string) { s.add("every-byte-in-position", x) })
 	for _, w := range nearMisses(c.logic) {
 		for _, f := range []string{"<%s>", "<%s ", "<%s/", "<a %s=x>", "<a href=%s:x>", "<a href='%s:x'>", "<a href=\" %sscript:x\">", "<!%s x>", "<?%s x>", "<![%s", "<a on%s=x>", "<a %s:href=x>", "<!--[%s x]>", "%s"} {
 			s.add("logic-words", fmt.Sprintf(f, w))
